@@ -8,7 +8,7 @@ class Prop:
     TARGETS = ['props/C06.vo']
     PROPS_FILE = 'props/C06.v'
     SUITES = [HandlerSuite(), InvalidationSuite(), FeedSuite(), CrashFeedSuite()]
-    RULE = ('failurehandler: random sequences (<= 30 quick / <= 200 thorough operations) of add_job / add_default_job / '
+    RULE = ('failurehandler: random sequences (<= 30 quick / <= 120 thorough operations) of add_job / add_default_job / '
             'trigger_jobs / abort on the real RunningFailureHandler over 1-3 real applications x 1-5 real processes '
             'with mixed running failure strategies and start sequences (bursts of default jobs = an instance lost, '
             'application stopped/running flips, starter/stopper job names scripted idle/busy; 1 case in 6 hostile: '
